@@ -62,3 +62,33 @@ package controllers
 //@ func (*UpstreamClusterController).syncUpstreamCluster$1 props C16
 //@   panics-never
 //@   modifies *
+
+// ---- C10, TLS side: the verification options and the serving material used for host H are those of the cluster that H
+// resolves to (lower-cased, port ignored), and the gateway's own when H resolves to none ----
+//@ const sniC = REG[toLower(hostNoPort(host))]
+//@ const sniV = sniC.currentSecureServingTLSConfig.v
+//@ const sniP = unbox(sniV, "*clusters.secureServingConfig")
+//@ const sniStored = typeis(sniV, "*clusters.secureServingConfig") && sniP != nil && allocated(sniP)
+//@ const allWF = forall k string :: {REG[k]} REG[k] != nil ==> REG[k].currentSecureServingTLSConfig.v == nil || (typeis(REG[k].currentSecureServingTLSConfig.v, "*clusters.secureServingConfig") && unbox(REG[k].currentSecureServingTLSConfig.v, "*clusters.secureServingConfig") != nil && allocated(unbox(REG[k].currentSecureServingTLSConfig.v, "*clusters.secureServingConfig")))
+
+//@ func (*UpstreamClusterController).SNIVerifyOptions props C10
+//@   requires [wf] allWF
+//@   modifies nothing
+//@   ensures [unknown_host] old(sniC) == nil ==> !result1
+//@   ensures [own_options] result1 ==> old(sniC) != nil && old(sniStored) && old(sniP.verifyOptions) != nil && result.Roots == old(sniP.verifyOptions.Roots)
+//@   ensures [found] old(sniC) != nil && old(sniStored) && old(sniP.verifyOptions) != nil ==> result1
+
+//@ const helloC = REG[toLower(clientHello.ServerName)]
+//@ const helloV = helloC.currentSecureServingTLSConfig.v
+//@ const helloP = unbox(helloV, "*clusters.secureServingConfig")
+//@ const helloHasTLS = typeis(helloV, "*clusters.secureServingConfig") && helloP != nil && allocated(helloP) && !(len(helloP.certs) == 0 && helloP.clientCA == nil)
+
+// With SNI, the handshake gets the client-CA pool and the serving certificates of the cluster the server name resolves to;
+// a name that resolves to no cluster (or to one without TLS material) gets the gateway's base configuration, never another cluster's.
+//@ func (*UpstreamClusterController).WrapGetConfigForClient$1 props C10
+//@   requires [wf] allWF && clientHello != nil
+//@   modifies nothing
+//@   ensures [own_ca] result1 == nil && len(clientHello.ServerName) != 0 && old(helloC) != nil && old(helloHasTLS) && old(helloP.clientCA) != nil ==> result != nil && result.ClientCAs == old(helloP.clientCA) && result.ClientAuth == tls.RequestClientCert
+//@   ensures [own_certs] result1 == nil && len(clientHello.ServerName) != 0 && old(helloC) != nil && old(helloHasTLS) && len(old(helloP.certs)) > 0 ==> result != nil && result.Certificates == old(helloP.certs) && result.GetCertificate == nil && result.GetConfigForClient == nil
+//@   ensures [fresh_copy] result1 == nil && len(clientHello.ServerName) != 0 && old(helloC) != nil && old(helloHasTLS) ==> fresh(result)
+//@   ensures [unknown_gets_base] len(clientHello.ServerName) != 0 && (old(helloC) == nil || !old(helloHasTLS)) ==> result == baseCfg(getConfigFunc, clientHello)
